@@ -396,6 +396,7 @@ def run_chunk(args):
                     f"run {idx}: violation {vclass} did not reproduce from its own trace")
                 continue
             out.violations.append({
+                "chunk_start": start,
                 "property": prop, "machine": machine_name, "seed": seed, "run": idx,
                 "tier": tier, "config": r.config, "trace": small,
                 "original_length": len(r.trace), "shrink_tests": ntests,
@@ -403,16 +404,34 @@ def run_chunk(args):
                 "signature": rr.violation.signature,
                 "detail": rr.violation.detail, "digest": rr.digest,
             })
+            # shrinking has replayed many histories in this process: what follows in this
+            # chunk is no longer the clean chunk prefix a chunk replay would see
+            break
     return out
+
+
+def _chunk_child(args, conn):
+    """Body of a forked child: one chunk, result through the pipe, hard exit."""
+    try:
+        res = run_chunk(args)
+    except BaseException:
+        res = ChunkResult()
+        res.errors.append("chunk crashed: " + traceback.format_exc())
+    try:
+        conn.send(res)
+        conn.close()
+    finally:
+        os._exit(0)
 
 
 def run_batch(machine_name, prop, seed, runs, tier, workers, wall_cap, chunk=None,
               want_digests=False, max_viol=3, first=0):
-    """Run indices [first, first+runs) on `workers` processes.  Returns merged
-    ChunkResult plus the number of runs actually executed (the wall cap stops
-    submission of new chunks, never a chunk in flight)."""
-    import concurrent.futures as cf
+    """Run indices [first, first+runs).  Every chunk runs in a child forked afresh from
+    this (pristine) process, so whatever state the library keeps per process starts clean
+    at every chunk boundary and a chunk is exactly repeatable in a fresh interpreter.
+    The wall cap stops the submission of new chunks, never a chunk in flight."""
     import multiprocessing as mp
+    from multiprocessing.connection import wait as mp_wait
     t0 = time.time()
     if chunk is None:
         chunk = max(1, min(500, runs // (workers * 8) or 1))
@@ -430,14 +449,20 @@ def run_batch(machine_name, prop, seed, runs, tier, workers, wall_cap, chunk=Non
         return total
     ctx = mp.get_context("fork")
     hard = wall_cap * 3 + 120
-    with cf.ProcessPoolExecutor(max_workers=workers, mp_context=ctx) as ex:
-        pending = set()
-        it = iter(todo)
-        stop = False
+    running = {}
+    it = iter(todo)
+    stop = False
 
-        def submit_more():
-            nonlocal stop
-            while not stop and len(pending) < workers * 2:
+    def kill_all():
+        for c, pr in running.items():
+            try:
+                pr.kill()
+            except Exception:
+                pass
+
+    try:
+        while True:
+            while not stop and len(running) < workers:
                 if time.time() - t0 > wall_cap:
                     stop = True
                     break
@@ -446,34 +471,34 @@ def run_batch(machine_name, prop, seed, runs, tier, workers, wall_cap, chunk=Non
                 except StopIteration:
                     stop = True
                     break
-                pending.add(ex.submit(run_chunk, a))
-
-        submit_more()
-        while pending:
-            done, _ = cf.wait(pending, timeout=hard, return_when=cf.FIRST_COMPLETED)
-            if not done:
-                for p in pending:
-                    p.cancel()
-                _kill_pool(ex)
-                raise HarnessError(f"batch exceeded hard wall cap of {hard}s")
-            for d in done:
-                pending.discard(d)
-                _merge(total, d.result())
+                parent, child = ctx.Pipe(duplex=False)
+                sys.stdout.flush()
+                sys.stderr.flush()
+                pr = ctx.Process(target=_chunk_child, args=(a, child), daemon=True)
+                pr.start()
+                child.close()
+                running[parent] = pr
+            if not running:
+                break
+            ready = mp_wait(list(running), timeout=60)
+            if time.time() - t0 > hard:
+                kill_all()
+                raise HarnessError(f"batch exceeded hard wall cap of {hard:.0f}s")
+            for c in ready:
+                pr = running.pop(c)
+                try:
+                    res = c.recv()
+                except EOFError:
+                    res = ChunkResult()
+                    res.errors.append("a chunk process died without a result")
+                c.close()
+                pr.join(5)
+                _merge(total, res)
             if len(total.violations) >= max_viol or len(total.errors) > 3:
                 stop = True
-            submit_more()
-            if time.time() - t0 > hard:
-                _kill_pool(ex)
-                raise HarnessError(f"batch exceeded hard wall cap of {hard}s")
+    finally:
+        kill_all()
     return total
-
-
-def _kill_pool(ex):
-    try:
-        for p in list(getattr(ex, "_processes", {}).values()):
-            p.kill()
-    except Exception:
-        pass
 
 
 def _merge(total, part):
@@ -508,3 +533,14 @@ def write_replay(v):
 def load_replay(path):
     with open(path) as f:
         return json.load(f)
+
+
+def replay_chunk(mcls, prop, seed, tier, start, fail_idx, known=None):
+    """Re-run run indices start..fail_idx in this process (the replay of a violation that
+    needs the preceding runs of its chunk, i.e. state the library keeps per process)."""
+    last = None
+    for idx in range(start, fail_idx + 1):
+        last = run_generated(mcls, prop, seed, idx, tier, known)
+        if last.violation is not None and idx < fail_idx:
+            return idx, last
+    return fail_idx, last
